@@ -267,7 +267,7 @@ func lockHook(op string, mu interface{}) {
 }
 
 func lockHooks() *Hooks {
-	return &Hooks{Sleep: clockSleep, Go: clockGo, Lock: lockHook}
+	return &Hooks{Sleep: clockSleep, Go: lockGo, Lock: lockHook}
 }
 
 // mutexKind distinguishes a plain mutex from a RW mutex of the same owner.
@@ -276,4 +276,49 @@ func mutexKind(mu interface{}) string {
 		return ".mutex"
 	}
 	return ""
+}
+
+// lockLeakCheck reports mutexes still held by goroutine g although it has
+// returned from the API call it was running (or is about to exit): nobody can
+// ever release them, so every later incompatible request blocks forever. The
+// decision is logical (monitor state), not a timer.
+func lockLeakCheck(g int64, where string) {
+	lockmon.mu.Lock()
+	defer lockmon.mu.Unlock()
+	if !lockmon.on {
+		return
+	}
+	for _, h := range lockmon.held[g] {
+		mode := "R"
+		if h.write {
+			mode = "W"
+		}
+		lockmonAdd(lockViolation{Kind: "lock-leak", Class: h.class, Site: h.site,
+			Detail: fmt.Sprintf("a %s mutex taken in mode %s at %s is still held after %s returned: it can never be released, later calls needing it block forever", h.class, mode, h.site, where)})
+	}
+	delete(lockmon.held, g)
+}
+
+// lockGo: goroutine lifecycle events of the package (flusher exit with a lock held).
+func lockGo(name, ev string) {
+	clockGo(name, ev)
+	if ev == "exit" {
+		lockLeakCheck(gid(), "goroutine "+name)
+	}
+}
+
+// lockmonTakeKind removes and returns the recorded violations of one kind.
+func lockmonTakeKind(kind string) (out []lockViolation) {
+	lockmon.mu.Lock()
+	defer lockmon.mu.Unlock()
+	var keep []lockViolation
+	for _, v := range lockmon.viol {
+		if v.Kind == kind {
+			out = append(out, v)
+		} else {
+			keep = append(keep, v)
+		}
+	}
+	lockmon.viol = keep
+	return
 }
